@@ -452,6 +452,40 @@ pub fn run_case(rep: &mut Report, case: &Case, verbose: bool) {
             eprintln!("step {step}: queues {:?}", queues.iter().map(|q| q.len()).collect::<Vec<_>>());
         }
     }
+    // ---------------- the instance becomes grandmaster by a BMCA decision taken while the port is
+    // still slave (its own clock got better than the parent's grandmaster): there is no parent
+    // path any more, emitted Announces carry the own identity only
+    if case.path_trace && case.seed % 3 == 0 && held_path.as_ref().map(|p| !p.is_empty()).unwrap_or(false) {
+        let q = statime::config::ClockQuality { clock_class: 6, clock_accuracy: statime::config::ClockAccuracy::NS25, offset_scaled_log_variance: 0 };
+        if node.set_clock_quality(q).is_err() || node.bmca().is_err() {
+            return;
+        }
+        if node.port_state(0) == PortState::Slave {
+            rep.ev("takeover_not_reached");
+            return;
+        }
+        rep.ev("grandmaster_by_bmca_from_slave");
+        let own = clock_id(0x50).0;
+        for p in 0..n_ports {
+            if node.port_state(p) != PortState::Master {
+                continue;
+            }
+            let Ok(acts) = node.call(p, Call::AnnounceTimer) else { return };
+            for a in acts {
+                let Act::SendGeneral { data, .. } = a else { continue };
+                let Ok(m) = Msg::decode(&data) else { continue };
+                if m.hdr.msg_type != T_ANNOUNCE {
+                    continue;
+                }
+                rep.ev("path_trace_checked");
+                match m.tlvs.iter().find(|t| t.ty == TLV_PATH_TRACE) {
+                    Some(t) if t.value == own.to_vec() => {}
+                    Some(t) => rep.violation("C15|path-trace|stale-parent-path-as-grandmaster", &format!("the instance became grandmaster by a BMCA decision, but port {p} still announces a path of {} entries (the former parent's path + own identity)", t.value.len() / 8), replay.clone()),
+                    None => rep.violation("C15|path-trace|missing", &format!("grandmaster: no PATH_TRACE TLV on port {p}"), replay.clone()),
+                }
+            }
+        }
+    }
 }
 
 pub fn run(rep: &mut Report, tier: &str, seed: u64, shard: (u32, u32), replay: Option<&str>) {
